@@ -323,6 +323,10 @@ func (r *Rig) DoMethod(method, contentType string, body []byte) (res *HTTPResult
 		}()
 		r.GW.Handler(rec, req)
 	}()
+	// what net/http's server does when a request ends: files of a multipart form that were spooled to disk go away
+	if req.MultipartForm != nil {
+		req.MultipartForm.RemoveAll()
+	}
 	res.Status = rec.Code
 	res.Body = rec.Body.Bytes()
 	res.Header = rec.Header()
